@@ -38,7 +38,13 @@ ASSUMPTIONS = [
     "orders above n are over-parameterised on exact data (mathematically singular normal equations): their pole "
     "values are not judged, only the NaN/count structure of their columns; a numpy LinAlgError('Singular matrix') "
     "raised while solving such an order is counted as not judged, for ordmax == n it is a violation",
-    "methodSy='per' only (the 'cor' window correction is outside the statement; its time-unit behaviour is C08's)",
+    "fit route: cases whose reduced normal equations, built from the true spectrum, have a condition number above 1e10 are skipped "
+    "(ground-truth guard; the coefficient error of the unchanged tree follows eps*cond within a factor 2: a thorough-tier point with "
+    "n=7, Nch=3, one reference, positive sign, cond 3e12 came out 2e-5 off and had been reported - a false alarm of the check, not a "
+    "defect; nothing in the quick lattice is above 2e7)",
+    "methodSy='per' for the pole VALUES; with methodSy='cor' (nxseg 32 and 1024, true coefficients through pLSCF_poles) the library adds the "
+    "exponential-window term 1/(tau*dt) to the poles it reports: there the blanking and counting clauses are judged - the reported poles minus "
+    "that term must be exactly the roots with non-positive real part (the term's time-unit behaviour is C08's)",
     "mode-shape values are judged only for the unit normalisation and the NaN pattern (the statement says no more)",
 ]
 
@@ -119,6 +125,33 @@ def guards(alpha):
     if np.min(dl / scale) < 1e-3:
         return None, "pole-separation"
     return z, None
+
+
+LS_COND_MAX = 1e10
+COR_NXSEG = (32, 1024)
+
+
+def ls_cond(Sy, n, sgn):
+    """Condition number of the reduced normal equations of the linear least-squares problem of order n, built from the TRUE
+    spectrum (ground truth, no library call): M = sum_o T_o - S_o^T R^-1 S_o with the constraint block removed (last block for the
+    positive, first block for the negative basis-function sign). The exact solution has zero residual, so the coefficients any
+    double-precision solver returns are off by about eps*cond (observed factor <= 2 over the lattice: 2e-5 at cond 3e12, 1.5e-6 at
+    5e11, <= 3e-10 below 2e7); beyond LS_COND_MAX the tolerance 1e-5 is not a statement about the code."""
+    Nref, Nch, Nf = Sy.shape
+    Om = np.exp(sgn * 1j * np.pi * np.arange(Nf) / (Nf - 1))
+    Xo = np.array([Om**i for i in range(n + 1)]).T
+    Xoh = Xo.conj().T
+    Ro = np.real(Xoh @ Xo)
+    M = np.zeros(((n + 1) * Nch, (n + 1) * Nch))
+    for o in range(Nref):
+        Yo = np.array([-np.kron(xo, Hoi) for xo, Hoi in zip(Xo, Sy[o].T)])
+        So = np.real(Xoh @ Yo)
+        M += np.real(Yo.conj().T @ Yo) - So.T @ np.linalg.solve(Ro, So)
+    sub = M[: n * Nch, : n * Nch] if sgn == 1 else M[Nch:, Nch:]
+    try:
+        return float(np.linalg.cond(sub))
+    except np.linalg.LinAlgError:
+        return np.inf
 
 
 # ---- oracle ---------------------------------------------------------------------------------------
@@ -262,6 +295,12 @@ def run_case(seed, c):
 
     if route == "fit":
         Sy = spectrum(alpha, beta, sgn, nf_of(c["nfk"], n))
+        kap = ls_cond(Sy, n, sgn)
+        t.err("fit:guard.cond(reduced normal equations of the true spectrum)", min(kap, 1e300))
+        if not kap <= LS_COND_MAX:
+            t.skipped_by_guard += 1
+            t.outcomes["guard:ls-normal-equations-ill-conditioned"] += 1
+            return t
         t.evaluations += 1
         try:
             Ad, Bn = plscf.pLSCF(Sy, dt, ordmax, sgn_basf=sgn)
@@ -329,6 +368,33 @@ def run_case(seed, c):
             return t
         good = judge_single(t, case, Fn[:, 0], Xi[:, 0], Phi[:, 0, :], Lam[:, 0], z, n, Nch, dt)
         t.validated += 1
+        # the same call for spectra estimated by the correlogram (methodSy='cor'): the library adds the exponential-window term
+        # 1/(tau*dt), tau = -(nxseg-1)/ln(0.01), to the poles it reports; WHICH roots are reported (the blanking and counting
+        # clauses) is still decided on the roots themselves, so the reported poles minus that term must be exactly the roots
+        # with non-positive real part
+        lam_true = np.log(z) / dt
+        for nx in COR_NXSEG:
+            t.evaluations += 1
+            try:
+                _f, _x, _p, Lc = plscf.pLSCF_poles([alpha.copy()], [beta.copy()], dt, "cor", nx)
+            except Exception as e:
+                t.violation(f"true:cor:raises:{type(e).__name__}:pLSCF_poles", f"pLSCF_poles(methodSy='cor', nxseg={nx}) raised {e!r} on the true coefficients", case)
+                good = False
+                continue
+            shift = -np.log(0.01) / ((nx - 1) * dt)
+            col = np.asarray(Lc)[:, 0]
+            got = col[np.isfinite(col)] - shift
+            problem, worst = match_column(got, z, dt)
+            t.err("true:cor:pole_rel", worst)
+            t.validated += 1
+            if problem:
+                t.violation("true:cor:poles-order-n", f"methodSy='cor', nxseg={nx}: order-{n} column minus the window term: {problem}; "
+                                                      f"{len(got)} poles reported for {len(z)} roots", case)
+                good = False
+            else:
+                t.outcomes["true:cor:holds"] += 1
+                if np.any((lam_true.real < -EDGE * np.abs(lam_true)) & (lam_true.real > -shift)):
+                    t.outcomes["true:cor:stable-root-less-damped-than-the-window-term-reported"] += 1
         # rmfd2ac alone: its state matrix has the roots of det A(z) plus Nch structural zeros as eigenvalues
         t.evaluations += 1
         try:
@@ -544,7 +610,7 @@ def explore(ctx):
     nch_class = [2, 3, 4] if ctx.thorough else [2, 3]
     ctx.bounds = {
         "fit": {"n": ns, "Nch": nchs, "Nref": nrefs, "sign": list(SIGNS), "Nf": list(NF_KINDS) + ["min = 4(n+1)"],
-                "dt": list(DTS), "ordmax-n": list(EXTRA), "coefficient_family": list(FAMS), "methodSy": ["per"]},
+                "dt": list(DTS), "ordmax-n": list(EXTRA), "coefficient_family": list(FAMS), "methodSy": ["per", "cor (true-coefficient route: which roots are reported; nxseg 32, 1024)"]},
         "true (true coefficients through pLSCF_poles / rmfd2ac)": {"n": ns, "Nch": nchs, "Nref": nrefs, "sign": list(SIGNS),
                                                                  "dt": list(DTS), "coefficient_family": list(FAMS)},
         "class (pLSCF algorithm through SingleSetup, SD_est replaced by the exact spectrum)": {
@@ -570,6 +636,7 @@ def explore(ctx):
     # heaviest first
     items.sort(key=lambda it: -(it[1] * it[2] * max(it[2], it[3]) * sum(cost.get(i[1], 1) for i in it[4])))
     ctx.pmap(_slice, items, chunksize=1)
+    ctx.require("true:cor:holds", "true:cor:stable-root-less-damped-than-the-window-term-reported")
     ctx.require("fit:holds", "true:holds", "class:holds", "diag:holds", "diag:pole-exactly-on-the-boundary-reported", "ordmax>n:judged", "blanked-some", "reported-some")
 
 
